@@ -1438,20 +1438,51 @@ def item_windows(ctx, report):
                 continue
             calls = [(n, n.args[0]) for n in ast.walk(f.node)
                      if isinstance(n, ast.Call) and isinstance(n.func, ast.Attribute) and n.func.attr == 'parse_immutable' and n.args]
-            # item parses done by a helper method that is handed the buffer: the argument of the helper call is the buffer
+            # item parses done by a helper method that is handed the buffer (also through further helpers): the argument of the
+            # helper call is the buffer; a helper that re-binds the parameter is not followed, except to a suffix of itself
+            def through_helpers(fn, depth, seen):
+                """[(parse_immutable call, index of the parameter of ``fn`` that reaches it unchanged or as a suffix)]"""
+                out = []
+                hp = [a.arg for a in fn.node.args.args if a.arg not in ('self', 'cls')]
+                rebound = {t.id for st in ast.walk(fn.node) if isinstance(st, ast.Assign) for t in st.targets if isinstance(t, ast.Name)}
+
+                def param_of(e):
+                    if isinstance(e, ast.Subscript) and isinstance(e.slice, ast.Slice) and e.slice.upper is None:
+                        e = e.value         # a suffix of the buffer ends where the buffer ends
+                    if isinstance(e, ast.Name) and e.id in hp and e.id not in rebound:
+                        return hp.index(e.id)
+                    return None
+                for x in ast.walk(fn.node):
+                    if not (isinstance(x, ast.Call) and isinstance(x.func, ast.Attribute) and x.args):
+                        continue
+                    if x.func.attr == 'parse_immutable':
+                        k = param_of(x.args[0])
+                        if k is not None:
+                            out.append((x, k))
+                    elif depth < 3 and isinstance(x.func.value, ast.Name) and (
+                            x.func.value.id in ('self', 'cls') or x.func.value.id in [k_.name for k_ in c.mro if hasattr(k_, 'name')]):
+                        g = c.resolve(x.func.attr)
+                        if g is None or g.module.external or (g is fn and depth > 0 and id(x) in seen):
+                            continue
+                        if id(g) in seen and g is not fn:
+                            continue
+                        inner = through_helpers(g, depth + 1, seen | {id(g), id(x)}) if g is not fn else []
+                        for call_, gi in inner:
+                            if gi < len(x.args):
+                                k = param_of(x.args[gi])
+                                if k is not None:
+                                    out.append((call_, k))
+                                    report.touch(g)
+                return out
             for n in ast.walk(f.node):
                 if isinstance(n, ast.Call) and isinstance(n.func, ast.Attribute) and isinstance(n.func.value, ast.Name) and \
                         (n.func.value.id in ('self', 'cls') or n.func.value.id in [k.name for k in c.mro if hasattr(k, 'name')]):
                     h = c.resolve(n.func.attr)
                     if h is None or h is f or h.module.external:
                         continue
-                    hp = [a.arg for a in h.node.args.args if a.arg not in ('self', 'cls')]
-                    for x in ast.walk(h.node):
-                        if isinstance(x, ast.Call) and isinstance(x.func, ast.Attribute) and x.func.attr == 'parse_immutable' and x.args and \
-                                isinstance(x.args[0], ast.Name) and x.args[0].id in hp and hp.index(x.args[0].id) < len(n.args) and \
-                                not any(isinstance(st, ast.Assign) and any(isinstance(t, ast.Name) and t.id == x.args[0].id for t in st.targets)
-                                        for st in ast.walk(h.node)):
-                            calls.append((x, n.args[hp.index(x.args[0].id)]))
+                    for x, k in through_helpers(h, 0, {id(h)}):
+                        if k < len(n.args):
+                            calls.append((x, n.args[k]))
                             report.touch(h)
             if not calls:
                 continue
